@@ -47,8 +47,9 @@ type IterState struct {
 type Opaque struct{ what string } // havoc'd external object
 type ChanRef struct{ id int }     // id 0 => nil chan
 type ChanObj struct {
-	buf []Value
-	cap int
+	buf    []Value
+	cap    int
+	closed bool
 }
 
 // Addr is a uintptr produced from unsafe.Pointer: pointer plus byte offset term.
